@@ -315,6 +315,7 @@ func runC02(c *eng.Ctx) {
 			a := r.Do(core.Op{Kind: core.OpCreate, Scope: 0, CtxKind: 1})
 			b := r.Do(core.Op{Kind: core.OpCreate, Scope: a.NewScope, CtxKind: 0})
 			core.ProbeRegistered(r, b.NewScope)
+			core.ProbeForeignKeys(r, b.NewScope)
 			core.ProbeRegistered(r, b.NewScope)
 			core.ProbeRegistered(r, a.NewScope)
 			core.ProbeRegistered(r, 0)
